@@ -1327,3 +1327,205 @@ Proof.
   rewrite (span_while_all_true _ _ Ht). destruct Hz as [Hz | ->]; [|reflexivity].
   rewrite Hz. destruct t'; reflexivity.
 Qed.
+
+(* ---------------------------------------------------------------- components: ingredient, braces form *)
+Lemma until_stop f A t B al dn ev :
+  forallb (fun x => negb (f (kind x))) A = true -> f (kind t) = true ->
+  until f (St al dn (A ++ t :: B) ev) = Done (Some A, St al (rev A ++ dn) (t :: B) ev).
+Proof.
+  intros HA Ht. unfold until. cbn [b_rest St]. rewrite (position_split f A t B HA Ht).
+  rewrite firstn_length_app. fold (St al dn (A ++ t :: B) ev). rewrite advance_split. reflexivity.
+Qed.
+
+Lemma comp_body_braces NM ob Q cb R al dn ev :
+  forallb (fun x => negb (is_marker_or_open (kind x))) NM = true -> kind ob = KOpenBrace ->
+  forallb (fun x => negb (tk_eqb (kind x) KCloseBrace)) Q = true -> kind cb = KCloseBrace ->
+  comp_body (St al dn (NM ++ ob :: Q ++ cb :: R) ev)
+  = Done (Some {| bd_name := NM; bd_close := Some (tstart ob, tend cb);
+                  bd_qty := if existsb (fun t => negb (is_ws_block (kind t))) Q then Some Q else None |},
+          St al (cb :: rev Q ++ ob :: rev NM ++ dn) R ev).
+Proof.
+  intros HN Hob HQ Hcb. unfold comp_body. unfold bind at 1. unfold with_recover.
+  unfold obindM at 1. unfold bind at 1.
+  rewrite (until_stop is_marker_or_open NM ob (Q ++ cb :: R) al dn ev HN) by (rewrite Hob; reflexivity).
+  unfold obindM at 1. unfold bind at 1. unfold consume. unfold bind at 1. unfold at_kind, peek_of.
+  cbn [b_rest St]. rewrite Hob. cbn [tk_eqb tkind_beq]. unfold bind at 1. unfold bump_any, bind, next_token.
+  cbn [b_rest b_all b_done b_evs St]. unfold ret at 1 2.
+  unfold obindM at 1. fold (St al (ob :: rev NM ++ dn) (Q ++ cb :: R) ev). unfold bind at 1.
+  rewrite (until_stop (fun k => tk_eqb k KCloseBrace) Q cb R al _ ev HQ) by (rewrite Hcb; reflexivity).
+  unfold bump, bind, bump_any, bind, next_token. cbn [b_rest b_all b_done b_evs St]. unfold ret.
+  rewrite Hcb. cbn [tk_eqb tkind_beq]. reflexivity.
+Qed.
+
+Lemma note_absent cfg s :
+  tk_eqb (peek_of s) KOpenParen = false -> note cfg s = Done (None, s).
+Proof.
+  intro H. unfold note, with_recover, obindM, bind, consume, bind, at_kind. rewrite H. unfold ret.
+  destruct s; reflexivity.
+Qed.
+
+Section Igr.
+  Variable cfg : pcfg.
+
+  Lemma ingredient_braces at_ n0 NM ob Q cb R al dn ev name (qres : option quantity) :
+    kind at_ = KAt ->
+    forallb (fun x => negb (is_marker_or_open (kind x))) (n0 :: NM) = true ->
+    is_modifier_kind (kind n0) = false ->
+    position (fun k => tk_eqb k KOr) (n0 :: NM) = None ->
+    kind ob = KOpenBrace ->
+    forallb (fun x => negb (tk_eqb (kind x) KCloseBrace)) Q = true -> kind cb = KCloseBrace ->
+    tk_eqb (match R with t :: _ => kind t | [] => KEof end) KOpenParen = false ->
+    text_of cfg (tend at_) (n0 :: NM) = Done name -> is_text_empty name = false ->
+    (if existsb (fun t => negb (is_ws_block (kind t))) Q
+     then exists q' sep, qres = Some q' /\
+            let s := St al (cb :: rev Q ++ ob :: rev (n0 :: NM) ++ at_ :: dn) R ev in
+            parse_quantity cfg Q s = Done ((q', sep), s)
+     else qres = None) ->
+    exists i,
+      ingredient_p cfg (St al dn (at_ :: (n0 :: NM) ++ ob :: Q ++ cb :: R) ev)
+      = Done (Some (EvIngredient i), St al (cb :: rev Q ++ ob :: rev (n0 :: NM) ++ at_ :: dn) R ev) /\
+      i_name i = name /\ i_alias i = None /\ i_mods i = 0 /\ i_inter i = None /\ i_note i = None /\
+      i_qty i = qres.
+  Proof.
+    intros Hat HN Hmod Hor Hob HQ Hcb Hnote Htx Hem Hq.
+    unfold ingredient_p, obindM, bind, current_offset, consume, bind, at_kind, bump_any, bind, next_token, ret.
+    unfold peek_of at 1. unfold St at 1. cbn [b_rest]. rewrite Hat. cbn [tk_eqb tkind_beq].
+    unfold St. cbn [b_rest b_all b_done b_evs].
+    fold (St al (at_ :: dn) ((n0 :: NM) ++ ob :: Q ++ cb :: R) ev).
+    rewrite (modifiers_untriggered cfg (St al (at_ :: dn) ((n0 :: NM) ++ ob :: Q ++ cb :: R) ev))
+      by (unfold peek_of; cbn [b_rest St app]; exact Hmod).
+    rewrite (comp_body_braces (n0 :: NM) ob Q cb R al (at_ :: dn) ev HN Hob HQ Hcb).
+    rewrite note_absent by (unfold peek_of; cbn [b_rest St]; exact Hnote).
+    cbn [bd_name bd_qty].
+    rewrite (alias_untriggered cfg (n0 :: NM) _ Hor). unfold bind, textM, lift, ret.
+    unfold current_offset_of at 1. cbn [b_done St].
+    rewrite Htx. unfold check_empty_name. rewrite Hem. unfold ret, parse_modifiers, ret.
+    destruct (existsb (fun t => negb (is_ws_block (kind t))) Q).
+    - destruct Hq as (q' & sep & -> & Hpq). cbn zeta in Hpq. rewrite Hpq.
+      eexists. split; [reflexivity|]. cbn. repeat split; reflexivity.
+    - subst qres. eexists. split; [reflexivity|]. cbn. repeat split; reflexivity.
+  Qed.
+End Igr.
+
+(* ---------------------------------------------------------------- printed ingredient, braces form *)
+Definition at_p : ptok := (KAt, [64]).
+Definition ob_p : ptok := (KOpenBrace, [123]).
+Definition cb_p : ptok := (KCloseBrace, [125]).
+
+Definition igr_name_ok (p : list ptok) : bool :=
+  forallb shape_ok p && negb (str_blank (toks_text p)) &&
+  forallb (fun t => negb (is_marker_or_open (fst t))) p && forallb (notk KOr) p &&
+  match p with t :: _ => negb (is_modifier_kind (fst t)) | [] => false end.
+
+(* the tokens between the braces: a printed quantity without `}` inside, or only white space *)
+Definition igr_inner_ok (cfg : pcfg) (q : option qspec) (tp : qtape) (inner : list ptok) : bool :=
+  match q with
+  | Some q => qty_wf cfg q tp && forallb (notk KCloseBrace) (print_qty q tp)
+  | None => forallb (fun t => is_ws_block (fst t)) inner
+  end.
+
+Definition print_igr_braces (name : list ptok) (q : option qspec) (tp : qtape) (inner : list ptok) : list ptok :=
+  at_p :: name ++ ob_p :: (match q with Some q => print_qty q tp | None => inner end) ++ [cb_p].
+
+Lemma qty_wf_value cfg q tp : qty_wf cfg q tp = true -> value_wf cfg (qs_val q) tp = true.
+Proof.
+  intro W. unfold qty_wf in W.
+  apply andb_true_iff in W as [W Wunit].
+  apply andb_true_iff in W as [W Wval]. apply andb_true_iff in W as [W Wend].
+  apply andb_true_iff in W as [W Wap]. apply andb_true_iff in W as [W Wtrail].
+  apply andb_true_iff in W as [W Wad]. apply andb_true_iff in W as [W Wbd].
+  unfold value_wf. destruct (qs_val q); [exact Wval | | exact Wval]. rewrite Wval, Wbd, Wad. reflexivity.
+Qed.
+
+Lemma existsb_nonblock_qty cfg q tp off :
+  qty_wf cfg q tp = true ->
+  existsb (fun t => negb (is_ws_block (kind t))) (place off (print_qty q tp)) = true.
+Proof.
+  intro W. rewrite (place_existsb (fun k => negb (is_ws_block k))).
+  pose proof (qty_wf_value cfg q tp W) as Wv.
+  destruct (print_value_head cfg _ _ Wv) as (t0 & r0 & Eh & Hb & _).
+  unfold print_qty. rewrite !existsb_app. rewrite Eh. cbn [existsb].
+  unfold blank_p in Hb. assert (H : is_ws_block (fst t0) = false) by (destruct (fst t0); try discriminate; reflexivity).
+  rewrite H. cbn [negb orb]. rewrite !orb_true_r. reflexivity.
+Qed.
+
+Section IgrPrint.
+  Variable cfg : pcfg.
+
+  Theorem ingredient_print name q tp inner k off ev :
+    p_strict_escape cfg = false ->
+    igr_name_ok name = true -> igr_inner_ok cfg q tp inner = true ->
+    match k with t :: _ => tk_eqb (fst t) KOpenParen = false | [] => True end ->
+    let ts := place off (print_igr_braces name q tp inner ++ k) in
+    exists i st,
+      ingredient_p cfg (St ts [] ts ev) = Done (Some (EvIngredient i), st) /\
+      b_rest st = place (off + blen (unlex (print_igr_braces name q tp inner))) k /\ b_evs st = ev /\
+      text_trimmed (i_name i) = clean (toks_text name) /\ i_alias i = None /\ i_mods i = 0 /\
+      i_inter i = None /\ i_note i = None /\
+      option_map qproj (i_qty i) = option_map denote_qty q.
+  Proof.
+    intros Hstrict Hname Hinner Hk ts.
+    unfold igr_name_ok in Hname.
+    apply andb_true_iff in Hname as [Hname Hmodk]. apply andb_true_iff in Hname as [Hname Hnor].
+    apply andb_true_iff in Hname as [Hname Hnmark]. apply andb_true_iff in Hname as [Hnshape Hnblank].
+    destruct name as [|n0 nm]; [discriminate|].
+    set (Qp := match q with Some q => print_qty q tp | None => inner end).
+    assert (Ets : exists oO oQ oC,
+               ts = {| kind := KAt; tstr := [64]; tstart := off |}
+                    :: place (off + blen [64]) (n0 :: nm)
+                    ++ {| kind := KOpenBrace; tstr := [123]; tstart := oO |}
+                    :: place oQ Qp
+                    ++ {| kind := KCloseBrace; tstr := [125]; tstart := oC |}
+                    :: place (off + blen (unlex (print_igr_braces (n0 :: nm) q tp inner))) k).
+    { unfold ts. rewrite place_app. unfold print_igr_braces at 1. fold Qp.
+      change (at_p :: (n0 :: nm) ++ ob_p :: Qp ++ [cb_p]) with ([at_p] ++ (n0 :: nm) ++ [ob_p] ++ Qp ++ [cb_p]).
+      rewrite (place_app [at_p]), (place_app (n0 :: nm)), (place_app [ob_p]), (place_app Qp).
+      change (blen (unlex [at_p])) with (blen [64]).
+      rewrite <- !app_assoc. cbn [place fst snd at_p ob_p cb_p app]. rewrite <- ?app_assoc. cbn [app].
+      eexists _, _, _. reflexivity. }
+    destruct Ets as (oO & oQ & oC & Ets).
+    set (A := {| kind := KAt; tstr := [64]; tstart := off |}) in *.
+    destruct (text_reads cfg Hstrict (n0 :: nm) (off + blen [64]) Hnshape) as (tname & Etx & Hem & Htr).
+    set (OB := {| kind := KOpenBrace; tstr := [123]; tstart := oO |}) in *.
+    set (CB := {| kind := KCloseBrace; tstr := [125]; tstart := oC |}) in *.
+    set (R := place (off + blen (unlex (print_igr_braces (n0 :: nm) q tp inner))) k) in *.
+    set (sQ := St ts (CB :: rev (place oQ Qp) ++ OB :: rev (place (off + blen [64]) (n0 :: nm)) ++ A :: []) R ev).
+    assert (Hq : exists qres,
+               (if existsb (fun t => negb (is_ws_block (kind t))) (place oQ Qp)
+                then exists q' sep, qres = Some q' /\ parse_quantity cfg (place oQ Qp) sQ = Done ((q', sep), sQ)
+                else qres = None) /\ option_map qproj qres = option_map denote_qty q).
+    { unfold Qp. destruct q as [q0|]; cbn [igr_inner_ok] in Hinner.
+      - apply andb_true_iff in Hinner as [Wq _]. rewrite (existsb_nonblock_qty cfg q0 tp _ Wq).
+        destruct (parse_quantity_print cfg q0 tp oQ sQ Wq) as (q' & sep & Hp & Hpj).
+        exists (Some q'). split; [exists q', sep; split; [reflexivity|exact Hp]|]. cbn [option_map]. rewrite Hpj. reflexivity.
+      - exists None. split; [|reflexivity]. rewrite (place_existsb (fun k => negb (is_ws_block k))).
+        assert (H : existsb (fun t => negb (is_ws_block (fst t))) inner = false).
+        { apply forallb_negb_existsb. eapply forallb_impl; [|exact Hinner]. intros x Hx. rewrite Hx. reflexivity. }
+        rewrite H. reflexivity. }
+    destruct Hq as (qres & Hq & Hqp).
+    assert (HQc : forallb (fun x => negb (tk_eqb (kind x) KCloseBrace)) (place oQ Qp) = true).
+    { rewrite (place_forallb (fun k => negb (tk_eqb k KCloseBrace))). unfold Qp.
+      destruct q as [q0|]; cbn [igr_inner_ok] in Hinner.
+      - apply andb_true_iff in Hinner as [_ H]. exact H.
+      - eapply forallb_impl; [|exact Hinner]. intros x Hx. cbv beta in Hx. destruct (fst x); try discriminate Hx; reflexivity. }
+    destruct (ingredient_braces cfg A {| kind := fst n0; tstr := snd n0; tstart := off + blen [64] |}
+                (place (off + blen [64] + blen (snd n0)) nm) OB (place oQ Qp) CB R ts [] ev tname qres)
+      as (i & Hi & Hin & Hia & Him & Hii & Hint & Hiq); try reflexivity.
+    - change (forallb (fun x => negb (is_marker_or_open (kind x))) (place (off + blen [64]) (n0 :: nm)) = true).
+      rewrite (place_forallb (fun k => negb (is_marker_or_open k))). exact Hnmark.
+    - cbn [kind]. destruct (is_modifier_kind (fst n0)); [discriminate|reflexivity].
+    - change (position (fun k => tk_eqb k KOr) (place (off + blen [64]) (n0 :: nm)) = None).
+      apply place_position_none. exact Hnor.
+    - exact HQc.
+    - unfold R. destruct k as [|t k']; [reflexivity|]. cbn [place kind]. exact Hk.
+    - exact Etx.
+    - rewrite Hem. destruct (str_blank (toks_text (n0 :: nm))); [discriminate|reflexivity].
+    - exact Hq.
+    - exists i. eexists. split.
+      + change (place (off + blen [64]) (n0 :: nm))
+          with ({| kind := fst n0; tstr := snd n0; tstart := off + blen [64] |}
+                  :: place (off + blen [64] + blen (snd n0)) nm) in Ets.
+        rewrite <- Ets in Hi. exact Hi.
+      + cbn [b_rest b_evs St]. repeat split; auto. rewrite Hin. exact Htr. rewrite Hiq. exact Hqp.
+  Qed.
+End IgrPrint.
